@@ -175,3 +175,23 @@ let run path enc shape aux : string =
 
 let () =
   register "de.model.text" (function [path; enc; shape; _; aux] -> run path enc shape aux | _ -> "BADCASE")
+
+(* ------------------------------------------------------------------ [a_c02] the extended specification
+   spec.text.value2 <tp> <enc> <shape> <tdoc>  (model only; props/C02_ext.py, stream ext_spec)
+     -> ext=<b> sx=<b> | value (show_value syntax) | ERR:<class> (ERR:unfit = the specification does not fit)
+   TextDeSpec2.spec_value2 tp on the TextDoc document (encoding of ocaml/fam_spec.ml): tp = 1 what the tape path
+   yields (Props/C02_walk2.v C02_tape_path_ext_partial), tp = 0 the part the stream path shares (Props/C02_ext.v). *)
+let show_result2 (o : SerdeShape.dval Bytes.outcome) : string =
+  match o with
+  | Bytes.Err e when int_of_n e = 900 -> "ERR:unfit"
+  | _ -> show_result o
+
+let () =
+  register "spec.text.value2" (function [tp; enc; shape; d] ->
+      let doc = Fam_spec.parse_doc d in
+      let b01 b = if b then "1" else "0" in
+      (try
+         Printf.sprintf "ext=%s sx=%s | %s" (b01 (TextDeSpec2.ext_fields doc)) (b01 (TextDeSpec2.sx_fields doc))
+           (show_result2 (TextDeSpec2.spec_value2 (tp = "1") (decode_of enc) parse_f64 fops (parse_shape shape) doc))
+       with Crash -> crash_tag)
+                                       | _ -> "BADCASE")
